@@ -98,12 +98,14 @@ def gen_case(rng, tier):
         else:
             removed.append([ix, None])
     order_seed = rng.randrange(1 << 30)
-    return {"net": net.json(), "tree": tree, "removed": removed, "order_seed": order_seed}
+    return {"net": net.json(), "tree": tree, "removed": removed, "order_seed": order_seed,
+            "alphabet": rng.choice(gen.ALPHABETS)}
 
 
 def observe(case):
     """Run the real code. Returns dict of observations."""
     import random
+    gen.set_alphabet(case.get("alphabet", "ascii"), case.get("order_seed", 0))
     net = gen.Net.from_json(case["net"])
     tree = gen.real_tree(ctg, net, case["tree"])
     # query stats before slicing sometimes, so both tracked/untracked branches are hit
